@@ -14,6 +14,21 @@ use self::{
 use super::read_block_as;
 use crate::container::{CompressionHeader, block::ContentType};
 
+/// Crate-private readers for the verification harness.
+#[cfg(noodles_verif)]
+pub(crate) mod verif {
+    use std::io;
+
+    pub use super::encoding::{
+        read_byte_array_encoding, read_byte_encoding, read_integer_encoding,
+    };
+    use crate::container::CompressionHeader;
+
+    pub fn read_compression_header_inner(src: &mut &[u8]) -> io::Result<CompressionHeader> {
+        super::read_compression_header_inner(src)
+    }
+}
+
 pub fn read_compression_header(src: &mut &[u8]) -> io::Result<CompressionHeader> {
     let block = read_block_as(src, ContentType::CompressionHeader)?;
     let buf = block.decode()?;
